@@ -647,7 +647,7 @@ def unit_hist_concrete(unit):
     for s, himg, w in zip(samples, hists, want):
         regs = s["regs"]
         img = {int(a): v for a, v in s["mem"].items()}
-        for variant in ("other-object", "same-object"):
+        for variant in ("other-object", "same-object", "same-object-decoded-only"):
             mb = dict(img)
             if variant == "other-object":
                 run(make(dict(himg), regs), addr)
@@ -657,7 +657,14 @@ def unit_hist_concrete(unit):
                 eb = EMU.Emulator(EMU.Memory(lambda a: cur["m"].get(a, 0), lambda a, v: cur["m"].__setitem__(a, v & 0xFF)), reset_on_init=False)
                 for r, v in regs.items():
                     eb.regs.set(RN[r], v)
-                run(eb, addr)
+                if variant == "same-object-decoded-only":
+                    # the history only *looked* at the old bytes (debugger view / trace label), it did not execute them
+                    try:
+                        eb.decode_instruction(addr)
+                    except Exception:  # noqa: BLE001
+                        pass
+                else:
+                    run(eb, addr)
                 cur["m"] = mb
                 for r, v in regs.items():
                     eb.regs.set(RN[r], v)
